@@ -3,6 +3,7 @@ TYPES = {'COAW': 'cocls::co_awaiter<cocls::future<int> >', 'SYNCAW': 'cocls::syn
 GLOBALS = {'AW_INSTANCE': '_ZN5cocls7awaiter8instanceE', 'AW_DISABLED': '_ZN5cocls7awaiter8disabledE'}
 MERGE_RX = r'^cocls::suspend_point<void>::operator<<\(cocls::suspend_point<void>&&\)$'
 RC_LK = r'^cocls::awaiter::resume_chain_lk\(cocls::awaiter\*\)$'
+SNOW_RX = r'^cocls::suspend_point<void>::suspend_now\(\)$'
 CO = r'^cocls::co_awaiter<cocls::future<int> >::'
 SCR = r'^cocls::awaiter::subscribe_check_ready\('
 WAIT = r'^std::atomic<bool>::wait\(bool, std::memory_order\) const$'
@@ -39,12 +40,19 @@ UNITS = [
          unwind=n + 2, bounded='awaiter chains of 0..%d nodes, every mix of coroutine/callback awaiters' % n, kind='bounded', tiers=[t], object_bits=10, timeout=1200,
          under_contract=['cocls::awaiter::resume_chain_lk(cocls::awaiter*)'])
     for t, n in (('quick', 5), ('thorough', 8))
+] + [
+    # UNBOUNDED walk: loop contract over a lazily materialised chain of symbolic length with one tracked node + one summary node (h_rc_walk.c)
+    dict(name='resume_chain_lk_walk', driver='c01_future.cpp', roots=[RC_LK], names={'aw_resume_chain_lk': RC_LK}, names_opt={'sp_merge': MERGE_RX, 'sp_suspend_now': SNOW_RX},
+         types=dict(TYPES, EXT='cocls::suspend_point<void>::ExtData'), globals=GLOBALS, boundary=[SNOW_RX, MERGE_RX], lib=['rt_core.c', 'rt_atomic_seq.c'], spec=['C02/h_rc_walk.c'],
+         harness='h_rc_walk', defines=['CV_HAS_rc_walk 1', 'CV_HAS_rc_real 1'], loop_contracts=True, timeout=300,
+         perms={'cocls::awaiter._next': 'CV_NEXT', 'cocls::awaiter._handle_addr': 'CV_HA', 'cocls::awaiter._resume_fn': 'CV_RF'},
+         under_contract=['cocls::awaiter::resume_chain_lk(cocls::awaiter*)']),
 ]
 META = dict(
     level='proof',
-    level_text='awaiter::subscribe_check_ready (CAS retry loop under a loop contract), resume_chain_set_ready, awaiter::resume, co_awaiter<future<int>>::await_ready / await_suspend(handle) / await_suspend(fn,ctx) / await_resume / sync / force_sync and sync_awaiter::wakeup are verified thread-modularly against contracts: suspend <=> the node was pushed by exactly one RMW onto a chain value (never onto the ready marker), the published node is complete and links to the value it replaced (no waiter cut off); refused <=> the ready marker was seen, node untouched; the resolver swings the slot once and hands exactly the detached chain to the walk once; sync() returns only after the result is set and leaves no subscribed stack awaiter behind. The environment may push other waiters and may resolve at every atomic step. The chain walk resume_chain_lk is bounded (lists of 0..N awaiters of mixed kind; a resumed callback awaiter is freed at once so any later access is a use-after-free): each awaiter resumed exactly once, _next read before the resume, handles merged in order.',
-    level_note='Trusted: protocol-F primitives incl. the environment model and the blocking-wait primitive (returns only after the wake-up, which only follows a resolution), abstract callees (resume_chain_lk in the set_ready unit, operator<< as abstract append inside the bounded walk), clang front end, ir2c. Bounded: resume_chain_lk (N=5 quick / 8 thorough) - never counted as discharged. Not covered: liveness of atomic::wait, final_awaiter of async coroutines (C04), waiters on other value types.',
-    technique='CBMC code contracts + loop contracts via goto-instrument --dfcc on the C translation of awaiter.h/future.h with rely/guarantee protocol primitives for the atomic instructions; bounded unwinding for the list walk',
-    trusted_base=['protocol-F atomic primitives and environment model (lib/rt_atomic_protF.c)', 'std::atomic<bool>::wait / notify_all primitives (specs/C02/a_spec.h)', 'abstract append for suspend_point::operator<< in the bounded walk (contract proved/bounded in C06)'],
-    assumptions=['rely/guarantee soundness (argued, DESIGN 3.5)', 'the payload memory is written only by the holder of the right to resolve (C01 units)', 'resume_chain_lk: bounded(N) list length'],
+    level_text='awaiter::subscribe_check_ready (CAS retry loop under a loop contract), resume_chain_set_ready, awaiter::resume, co_awaiter<future<int>>::await_ready / await_suspend(handle) / await_suspend(fn,ctx) / await_resume / sync / force_sync and sync_awaiter::wakeup are verified thread-modularly against contracts: suspend <=> the node was pushed by exactly one RMW onto a chain value (never onto the ready marker), the published node is complete and links to the value it replaced (no waiter cut off); refused <=> the ready marker was seen, node untouched; the resolver swings the slot once and hands exactly the detached chain to the walk once; sync() returns only after the result is set and leaves no subscribed stack awaiter behind. The environment may push other waiters and may resolve at every atomic step. The chain walk resume_chain_lk is PROVED UNBOUNDED under a loop contract with a tracked-node abstraction (unit resume_chain_lk_walk, specs/C02/h_rc_walk.c: chain of symbolic length n < 2^30, no unwinding; the chain is materialised lazily - one arbitrary-but-fixed waiter at a symbolic position is a real object of symbolic kind, all other waiters are one summary object that is a fresh arbitrary waiter in every iteration; at the start of each iteration the cursor node gets its link node(pos+1) and the ghost cursor advances; a released waiter is poisoned (arbitrary member values + shadow copy) so that any later read goes wrong and any later write is seen, and permission hooks on _next / _handle_addr / _resume_fn name such an access directly): the tracked waiter is released exactly once, when the walk has reached it (callback called once with itself and its own context / its coroutine handle handed over exactly once), none of its three members is accessed after its release, the walk writes nothing of a waiter but its link, every iteration moves on by exactly one waiter, exactly n releases happen, no exception, the returned suspend point is modified by merges only, the walk terminates (decreases clause). The position of the tracked waiter is arbitrary, so this holds for every waiter of the chain. A BOUNDED SIBLING (resume_chain_lk_bounded_*, lists of 0..N concrete awaiters of mixed kind; a resumed callback awaiter is freed at once so any later access is a use-after-free) exercises every node concretely and additionally checks that handles are merged in chain order; it also decides rewritten loops the invariant of the unbounded unit does not fit.',
+    level_note='Trusted: protocol-F primitives incl. the environment model and the blocking-wait primitive (returns only after the wake-up, which only follows a resolution), abstract callees (resume_chain_lk in the set_ready unit, operator<< / suspend_now as abstract hand-over of the handles inside the two walk units), clang front end, ir2c. resume_chain_lk_walk: the list SHAPE is an assumption of the unit (the detached chain is an acyclic list of n distinct awaiters with distinct handles that no other thread touches - established by the push contracts of subscribe_check_ready and protocol F, not re-proved here); writes to anonymous waiters are weak updates on the summary object, claims are made for the tracked waiter (arbitrary position => all) plus the release count; the loop cursor is re-anchored on the real objects at the start of each iteration by an assignment whose being the identity is an obligation (a pointer havocked by the loop contract and only assumed equal to an object is not dereferenceable in CBMC); a rewrite that reads the link of a waiter AHEAD of the cursor (look-ahead) is outside the abstraction and reported UNDECIDED (body-less rw_model_limit_*), never as a violation; accesses made through references inside callees (std::exchange) are not seen by the permission hooks but by the poisoning; y->_next = nullptr is hygiene and not demanded; a temporary suspend point flushed on the spot (suspend_now) counts as the release of its coroutine; order of the merged handles is checked by the bounded sibling only. Bounded sibling: resume_chain_lk_bounded_* (N=5 quick / 8 thorough) - never counted as discharged. Not covered: liveness of atomic::wait, final_awaiter of async coroutines (C04), waiters on other value types.',
+    technique='CBMC code contracts + loop contracts via goto-instrument --dfcc on the C translation of awaiter.h/future.h with rely/guarantee protocol primitives for the atomic instructions; list walk: loop contract over a lazily materialised chain (tracked node + summary node, permission hooks on _next) + bounded unwinding as cross-check sibling',
+    trusted_base=['protocol-F atomic primitives and environment model (lib/rt_atomic_protF.c)', 'std::atomic<bool>::wait / notify_all primitives (specs/C02/a_spec.h)', 'abstract append for suspend_point::operator<< / suspend_now in the walk units (contracts proved/bounded in C06)', 'lazy materialisation (rw_anchor: cursor node gets its link at the start of each iteration), poisoning of released waiters and tracked-node ghost state of specs/C02/h_rc_walk.c'],
+    assumptions=['rely/guarantee soundness (argued, DESIGN 3.5)', 'the payload memory is written only by the holder of the right to resolve (C01 units)', 'resume_chain_lk_walk: the detached chain is an acyclic list of n < 2^30 distinct awaiters with distinct handles, untouched by other threads (list shape assumed, not proved in that unit); claims for one arbitrary tracked waiter hold for all by symmetry', 'resume_chain_lk_bounded_*: bounded(N) list length'],
     explanation='see level_text')
